@@ -163,6 +163,11 @@ EXT_HAND = [
     # a placeholder that occurs only below a unary minus
     {"spec": "spec: forall X (p(X) <-> q(X) and X > -n$i).", "right": "p(X) :- q(X), X > 0 - n.", "ug": UG0 + " input: n -> integer."},
     {"left": "p(X) :- q(X).", "right": "p(X) :- q(X), X = X.", "ug": UG0 + " input: n -> integer. assumption: forall X (q(X) -> X > -n$i)."},
+    # specification formulas written the way anthem prints the (simplified) completed definitions of the program, annotated with a direction
+    {"spec": "spec(backward): forall V1 (p(V1) <-> q(V1)).", "right": "p(X) :- q(X).", "ug": UG0},
+    {"spec": "spec(forward): forall V1 (p(V1) <-> q(V1)).", "right": "p(X) :- q(X).", "ug": UG0},
+    {"spec": "spec(backward): forall V1 (p(V1) <-> q(V1)). spec(forward): forall X (q(X) -> p(X)).", "right": "p(X) :- q(X).", "ug": UG0},
+    {"spec": "assumption(backward): forall V1 (p(V1) <-> q(V1) and V1 > 0). spec: forall X (p(X) -> q(X)).", "right": "p(X) :- q(X), X > 0.", "ug": UG0},
 ]
 
 
@@ -331,7 +336,7 @@ def run_C19(ctx):
             txt = c.get("spec", "") + " | " + c.get("left", "") + " | " + c.get("right", "")
             return ("<->" in c.get("spec", "") and not c.get("spec", "").startswith("spec: forall X (p(X) <-> q(X)")) or "aux(X)" in txt and "aux(X) :-" not in txt
         hand = [c for c in e_cases if c["id"] in ide and c["id"].startswith("h")]
-        first = [c for c in hand if flag_sensitive(c)]
+        first = sorted([c for c in hand if flag_sensitive(c)], key=lambda c: 0 if "ward)" in c.get("spec", "") else 1)   # direction annotations first
         rest = [c for c in hand if not flag_sensitive(c)]
         ec = [dict(c, flagsets=allE) for c in (first[:16] + [c for c in e_cases if c["id"] in ide and not c["id"].startswith("h")][:6] + rest)][:24]
         pp = {r["id"]: r["pp"] for r in s_usable + e_usable}
